@@ -73,6 +73,18 @@ pub fn plain_hit(j: u32) -> bool {
     true
 }
 
+thread_local! {
+    /// FuncPtrs of pool targets made ahead of their use (step "mkptr"): the moment a pointer is made is not the moment it is used
+    pub static PTR_STASH: std::cell::RefCell<std::collections::HashMap<usize, FuncPtr>> = std::cell::RefCell::new(std::collections::HashMap::new());
+}
+/// make and keep a typed pointer to target f of the Rust pool unless one is already kept
+pub fn make_ptr(f: usize) {
+    let t = rust_target(f);
+    PTR_STASH.with(|m| {
+        m.borrow_mut().entry(f).or_insert_with(|| injectorpp::func!(t, fn(u32) -> bool));
+    });
+}
+
 // ================================================================== pool "rust"
 macro_rules! targets_u32_bool {
     ($($name:ident = $id:expr),*) => {
@@ -269,6 +281,16 @@ impl Pool for RustPool {
     }
     fn install(&self, inj: &mut InjectorPP, s: &InstallSpec) {
         let t = rust_target(s.f);
+        // the target's FuncPtr: one made earlier and kept (mkptr), or made on the spot
+        let stashed = PTR_STASH.with(|m| m.borrow_mut().remove(&s.f));
+        macro_rules! tptr {
+            () => {
+                match stashed {
+                    Some(p) => p,
+                    None => injectorpp::func!(t, fn(u32) -> bool),
+                }
+            };
+        }
         match s.gate.as_str() {
             "abandon" => {
                 // a builder dropped without a terminal call
@@ -299,13 +321,13 @@ impl Pool for RustPool {
             _ => {}
         }
         if s.kind == "bool" {
-            inj.when_called(injectorpp::func!(t, fn(u32) -> bool)).will_return_boolean(s.fake == "true");
+            inj.when_called(tptr!()).will_return_boolean(s.fake == "true");
             return;
         }
         let k = s.k();
         let fk = rust_fake(k);
         match s.flavour.as_str() {
-            "raw" => inj.when_called(injectorpp::func!(t, fn(u32) -> bool)).will_execute_raw(injectorpp::func!(fk, fn(u32) -> bool)),
+            "raw" => inj.when_called(tptr!()).will_execute_raw(injectorpp::func!(fk, fn(u32) -> bool)),
             "rawfn" => inj.when_called(injectorpp::func!(fn (t)(u32) -> bool)).will_execute_raw(injectorpp::func!(fn (fk)(u32) -> bool)),
             "closure" => {
                 let c = match k {
@@ -313,7 +335,7 @@ impl Pool for RustPool {
                     2 => injectorpp::closure!(|_x: u32| -> bool { plain_hit(2) }, fn(u32) -> bool),
                     _ => injectorpp::closure!(|_x: u32| -> bool { plain_hit(3) }, fn(u32) -> bool),
                 };
-                inj.when_called(injectorpp::func!(t, fn(u32) -> bool)).will_execute_raw(c)
+                inj.when_called(tptr!()).will_execute_raw(c)
             }
             "fake" => {
                 let p = match k {
@@ -321,12 +343,12 @@ impl Pool for RustPool {
                     2 => injectorpp::fake!(func_type: fn(_x: u32) -> bool, returns: plain_hit(2)),
                     _ => injectorpp::fake!(func_type: fn(_x: u32) -> bool, returns: plain_hit(3)),
                 };
-                inj.when_called(injectorpp::func!(t, fn(u32) -> bool)).will_execute(p)
+                inj.when_called(tptr!()).will_execute(p)
             }
             "counted" => {
                 SITE_N[s.site - 1].store(s.n as usize, SeqCst);
                 SITE_FAKE[s.site - 1].store(k as u32, SeqCst);
-                inj.when_called(injectorpp::func!(t, fn(u32) -> bool)).will_execute(counted_site(s.site - 1))
+                inj.when_called(tptr!()).will_execute(counted_site(s.site - 1))
             }
             "countedpair" => {
                 SITE_N[s.site - 1].store(s.n as usize, SeqCst);
